@@ -11,6 +11,7 @@ Cases that touch a rule the documentation leaves open are tagged informational
 by the model and never give a verdict.
 """
 import json
+import os
 import random
 
 from harness import core, querycorpus
@@ -99,6 +100,31 @@ def _work(items):
 def run(ctx):
     cfgs = ["MC_Query_q1.cfg", "MC_Query_q2.cfg"] if ctx.quick else ["MC_Query_t1.cfg", "MC_Query_t2.cfg"]
     corpus = querycorpus.tlc_corpus(ctx, "MC_Query", cfgs)
+    # C->S beyond the bound: seeded random documents (<= 25 nodes, depth <= 4) and paths of 1-4 segments;
+    # TLC (Batch_Query) evaluates Sel and writes the texts; the cases join the same replay
+    import random
+    from harness import randdocs
+    rng = random.Random(ctx.seed)
+    n_docs = 400 if ctx.quick else 4000
+    recs = []
+    for i in range(n_docs):
+        d = randdocs.rand_doc(rng)
+        for j in range(12):
+            recs.append({"id": len(recs), "doc": d, "segs": randdocs.rand_path(rng, d)})
+    rnd = {}
+    for part in [recs[i:i + 1200] for i in range(0, len(recs), 1200)]:
+        rin, rout = ctx.path("rand_%d.in.json" % part[0]["id"]), ctx.path("rand_%d.out.json" % part[0]["id"])
+        with open(rin, "w") as fh:
+            json.dump(part, fh)
+        core.run_tlc(ctx, "Batch_Query", "Batch_Query.cfg", env={"RECORDS_IN": rin, "VERDICTS_OUT": rout}, workers=1,
+                     name="rand_%d" % part[0]["id"], timeout=3600)
+        with open(rout) as fh:
+            for o in json.load(fh):
+                d = recs[o["id"]]["doc"]
+                rnd.setdefault(id(d), [d, []])[1].append(o["c"])
+        os.remove(rin)
+    corpus += [(d, cs) for d, cs in rnd.values()]
+    ctx.coverage["random_cases_beyond_bound"] = len(recs)
     items = [(d, cs, querycorpus.variant_of(d, ctx.seed, ctx.quick)) for d, cs in corpus]
     tot = {"cases": 0, "verdict": 0, "info": 0, "info_mismatch": 0, "nontrivial": 0, "polluted": 0}
     for out, stats in querycorpus.pmap(_work, items, chunk=8):
